@@ -27,6 +27,20 @@ def regen_stmts(ctx):
     return []
 
 
+def regen_coll(ctx):
+    """Regenerates lean/Hive/Gen/C08_Coll.lean: kvstore/batch_collector.go translated (go/ast) into terms of the small
+    language of Hive/Model/BatchWriterColl.lean; Hive/Props/BatchWriterColl.lean proves what the terms do and that the
+    protocol model's collector steps do the same."""
+    out = os.path.join(checklib.LEAN, "Hive", "Gen", "C08_Coll.lean")
+    tmp = os.path.join(ctx.scratch, "C08_Coll.lean")
+    args = ["go", "run", "./c08/collgen", tmp, "Hive.Gen.C08Coll", os.path.join(ctx.repo, "kvstore/batch_collector.go")]
+    rc, log = checklib.sh(args, cwd=checklib.HARNESS, timeout=600)
+    if rc != 0 or not os.path.exists(tmp):
+        return [{"kind": "skeleton-extractor", "detail": checklib.tail(log, 20)}]
+    checklib.write_gen(ctx, out, open(tmp).read())
+    return []
+
+
 def regen(ctx):
     fails = checklib.regen_skeletons(ctx, [
         "kvstore/batch_writer.go:BatchedWriter.Enqueue", "kvstore/batch_writer.go:BatchedWriter.startBatchWriter",
@@ -34,13 +48,13 @@ def regen(ctx):
         "kvstore/batch_writer.go:BatchedWriter.runBatchWriter", "kvstore/batch_collector.go:BatchCollector.Add",
         "kvstore/batch_collector.go:BatchCollector.Commit",
         "kvstore/batch_writer.go:type=BatchedWriter", "kvstore/batch_writer.go:type=Options",
-        "kvstore/batch_collector.go:type=BatchCollector"],
+        "kvstore/batch_collector.go:type=BatchCollector", "runtime/syncutils/mutex.go:type=Mutex"],
         extra_methods=["BatchWriteScheduled", "ResetBatchWriteScheduled", "BatchWrite", "BatchWriteDone", "Commit", "Cancel", "Batched"])
-    return (fails or []) + regen_stmts(ctx)
+    return (fails or []) + regen_stmts(ctx) + regen_coll(ctx)
 
 
 SPEC = {
-    "lean_props": ["Hive.Props.C08", "Hive.Props.BatchWriterTie"],
+    "lean_props": ["Hive.Props.C08", "Hive.Props.BatchWriterTie", "Hive.Props.BatchWriterColl"],
     "regen": regen,
     "lean_namespace": "Hive.BatchWriter",
     "driver": "drv_c08",
@@ -56,7 +70,10 @@ SPEC = {
                  "C08_old_statement_witness", "C08_loop_condition_order_witness", "C08_skeleton_Enqueue", "C08_skeleton_startBatchWriter",
                  "C08_skeleton_StopBatchWriter", "C08_skeleton_Flush", "C08_skeleton_runBatchWriter",
                  "C08_skeleton_collector_Add", "C08_skeleton_collector_Commit",
-                 "C08_skeleton_type_BatchedWriter", "C08_skeleton_type_Options", "C08_skeleton_type_BatchCollector", "C08_stmts_var_defaultOptions", "C08_stmts_NewBatchedWriter", "C08_stmts_Options_apply", "C08_stmts_WithQueueSize", "C08_stmts_WithBatchSize", "C08_stmts_WithBatchTimeout", "C08_stmts_BatchedWriter_startBatchWriter", "C08_stmts_BatchedWriter_StopBatchWriter", "C08_stmts_BatchedWriter_Enqueue", "C08_stmts_BatchedWriter_Flush", "C08_stmts_BatchedWriter_runBatchWriter", "C08_stmts_newBatchCollector", "C08_stmts_BatchCollector_Add", "C08_stmts_BatchCollector_Commit", "C08_stmts_CleanupTimer"],
+                 "C08_skeleton_type_BatchedWriter", "C08_skeleton_type_Options", "C08_skeleton_type_BatchCollector", "C08_skeleton_type_Mutex",
+                 "C08_collector_methods", "C08_collector_new_derived", "C08_collector_Add_derived", "C08_collector_Commit_derived",
+                 "C08_collector_Commit_error_derived", "C08_collector_committed_panics", "C08_model_Add_is_collector_Add",
+                 "C08_model_Commit_is_collector_Commit", "C08_stmts_var_defaultOptions", "C08_stmts_NewBatchedWriter", "C08_stmts_Options_apply", "C08_stmts_WithQueueSize", "C08_stmts_WithBatchSize", "C08_stmts_WithBatchTimeout", "C08_stmts_BatchedWriter_startBatchWriter", "C08_stmts_BatchedWriter_StopBatchWriter", "C08_stmts_BatchedWriter_Enqueue", "C08_stmts_BatchedWriter_Flush", "C08_stmts_BatchedWriter_runBatchWriter", "C08_stmts_newBatchCollector", "C08_stmts_BatchCollector_Add", "C08_stmts_BatchCollector_Commit", "C08_stmts_CleanupTimer"],
     "trusted_base": ["hand-written protocol model Hive/Model/BatchWriter.lean of kvstore/batch_writer.go + batch_collector.go, tied by (a) the trace predicate evaluated on traces of the real code, (b) the witness schedules replayed on the real code with trace equality, (c) regenerated synchronisation skeletons, type facts and normalised statements (guards, arguments, constants) of every anchored function",
                      "Go semantics of sync.Once / Mutex / WaitGroup / atomics / buffered and unbuffered channels / select as written in the model",
                      "Go toolchain, compiled Lean driver, harness trace recorder (one mutex-ordered event log)"],
